@@ -4,7 +4,7 @@ CONSTANTS
  MainOf <- TMain
  Fuel = 8
  DevF3 = FALSE
- DevMolsPerFile = TRUE
+ DevMolsPerFile = FALSE
  DevDirKeep = FALSE
  DevElseKeep = FALSE
 INVARIANT Mark
